@@ -88,7 +88,7 @@ let () =
              | Some v -> "U " ^ string_of_z v)
           | "T" ->
             (* the D-spec subset of a thread-loop case: cpu= os= mem64= B= T= X= M= U= R= (numbers decimal or 0x-hex) *)
-            let cpu = ref "x86" and os = ref "win" and mem64 = ref false in
+            let cpu = ref "x86" and os = ref "win" and mem64 = ref false and share = ref false in
             let bp = ref None and exc = ref None in
             let threads = ref [] and mods = ref [] and unl = ref [] and regions = ref [] in
             let num (t : string) : z = z_of_string t in
@@ -112,6 +112,7 @@ let () =
                | "os" -> os := v
                | "mem64" -> mem64 := (v = "1")
                | "opt" -> ()
+               | "share" -> share := (v = "1")
                | "B" -> bp := Some (num f.(0), num f.(1))
                | "T" -> threads := (num f.(0), num f.(1), bytes_spec f.(2), regs_spec f.(3)) :: !threads
                | "X" -> exc := Some (num f.(0), regs_spec f.(7))
@@ -121,6 +122,12 @@ let () =
                | _ -> failwith ("T case: token " ^ k))
             done;
             let threads = List.rev !threads and mods = List.rev !mods and unl = List.rev !unl and regions = List.rev !regions in
+            (* share=1: every thread-list entry carries the stack descriptor and the context location of the first one (the
+               same file bytes); the memory list keeps one entry per thread as written (the later ones are empty) *)
+            let mem_threads = threads in
+            let threads = match threads with
+              | (_, b0, s0, r0) :: _ when !share -> List.map (fun (id, _, _, _) -> (id, b0, s0, r0)) threads
+              | _ -> threads in
             let (archid, ipn, spn, fpn, lrn) = match !cpu with
               | "x86" -> (0, "eip", "esp", "ebp", "")
               | "amd64" -> (1, "rip", "rsp", "rbp", "")
@@ -143,7 +150,7 @@ let () =
                and an entry of the MemoryList *)
             let th = List.map (fun (id, base, bytes, regs) ->
                 (((id, ctx_of regs), (if !mem64 || bytes = [] then None else Some (base, bytes))), base)) threads in
-            let mem = List.map (fun (_, base, bytes, _) -> (base, bytes)) threads @ regions in
+            let mem = List.map (fun (_, base, bytes, _) -> (base, bytes)) mem_threads @ regions in
             let (dump_tid, req_tid) = match !bp with Some (d, r) -> (Some d, Some r) | None -> (None, None) in
             let (crash_tid, exc_ctx) = match !exc with Some (tid, r) -> (Some tid, ctx_of r) | None -> (None, None) in
             (match run_process (z_of_int archid) (z_of_int osid) th dump_tid crash_tid req_tid exc_ctx mem mods unl with
